@@ -459,7 +459,8 @@ impl World {
                             nodes.push(e);
                         }
                         info.insert("dists".into(), json!(dists));
-                        ResponseBody::Nodes { total: b.get("total").and_then(|x| x.as_u64()).unwrap_or(1), nodes }
+                        // (TLC integers have 32 bits: a total of 2 000 000 000 in a behaviour stands for the largest claim, 2^64 - 1)
+                        ResponseBody::Nodes { total: match b.get("total").and_then(|x| x.as_u64()).unwrap_or(1) { t if t >= 2_000_000_000 => u64::MAX, t => t }, nodes }
                     }
                     "talk" => ResponseBody::Talk { response: b"resp".to_vec() },
                     _ => {
